@@ -277,6 +277,12 @@ def _simple(draw, s, o, dt):
     return LO.fit(draw, t, o)
 
 
+def _other_extent(draw, n):
+    """an extent different from n: larger, smaller, or exactly 1 (the value NumPy would silently broadcast)"""
+    opts = [n + 1, n + 2] + ([1] if n > 1 else []) + ([n - 1] if n > 2 else [])
+    return draw(st.sampled_from(opts))
+
+
 def _perturb(draw, shape):
     """a shape different from `shape` (same ndim, one extent changed; or different ndim)"""
     kind = draw(st.integers(0, 3))
@@ -322,7 +328,7 @@ def st_reject(draw):
                 o2 = _perturb(draw, o)
             else:
                 off = draw(st.sampled_from([d for d in range(nd) if d != axis % nd]))
-                s2[off] += draw(st.integers(1, 2))
+                s2[off] = _other_extent(draw, s2[off])
         elif kind == "Hstack-ndim":
             s2 = s2 + [1] if draw(st.booleans()) else [1] + s2
         else:
@@ -341,7 +347,7 @@ def st_reject(draw):
                 s2 = _perturb(draw, s)
             else:
                 off = draw(st.sampled_from([d for d in range(nd) if d != axis % nd]))
-                o2[off] += draw(st.integers(1, 2))
+                o2[off] = _other_extent(draw, o2[off])
         elif kind == "Vstack-ndim":
             o2 = o2 + [1] if draw(st.booleans()) else [1] + o2
         else:
@@ -360,11 +366,13 @@ def st_reject(draw):
         o2[oaxis % nd] = draw(st.integers(1, 3))
         if kind == "Diag-ioff":
             off = draw(st.sampled_from([d for d in range(nd) if d != iaxis % nd]))
-            s2[off] += draw(st.integers(1, 2))
+            s2[off] = _other_extent(draw, s2[off])
         else:
             off = draw(st.sampled_from([d for d in range(nd) if d != oaxis % nd]))
-            o2[off] += draw(st.integers(1, 2))
+            o2[off] = _other_extent(draw, o2[off])
         sp = {"op": "Diag", "ops": [_simple(draw, s, o, dt), _simple(draw, s2, o2, dt)], "oaxis": oaxis, "iaxis": iaxis}
+    if sp["op"] in ("Hstack", "Vstack", "Diag", "Add") and "ops" in sp and draw(st.booleans()):
+        sp["ops"] = sp["ops"][::-1]          # the operand that does not fit may come first or second
     return {"tree": sp, "dtype": dt, "kind": kind}
 
 
